@@ -17,6 +17,7 @@ import GwcsModel.Drv.C04
 import GwcsModel.Drv.C05
 import GwcsModel.Drv.C02
 import GwcsModel.Drv.C12
+import GwcsModel.Drv.C16
 open Lean Gwcs
 
 def dispatch (j : Json) : Json :=
@@ -25,6 +26,7 @@ def dispatch (j : Json) : Json :=
   | some "C08" => if jStr (jFieldD j "op" Json.null) == some "cache" then Gwcs.Drv.C08.handle j else Gwcs.Drv.Pipe.handle j
   | some "C19" => Gwcs.Drv.C19.handle j
   | some "C12" => Gwcs.Drv.C12.handle j
+  | some "C16" => Gwcs.Drv.C16.handle j
   | some "C02" => Gwcs.Drv.C02.handle j
   | some "C05" => Gwcs.Drv.C05.handle j
   | some "C04" => Gwcs.Drv.C04.handle j
